@@ -635,6 +635,76 @@ Definition main_run (cl : cli) (env : name -> option string) (dodo : list (name 
       end
   end.
 
+(* ---- several commands, one after the other, in ONE process: one DoitMain object, hence one config
+   object handed to every command that is built (run twice through the API, `doit help <cmd>`,
+   tabcompletion, which instantiates every command).
+   A step either only BUILDS a command object and its parser (what help / tabcompletion do) or is a
+   whole DoitMain.run.  The config object is threaded through the steps: `eff cfg nm` is what building
+   the command named nm leaves in it.  For the code it is `init_pure`: Command.__init__ 96-101 starts
+   config_vals from a fresh dict and only READS the sections (`{}`, then .update(config['GLOBAL']),
+   .update(config[name])); nothing else in DoitMain.run writes self.config. *)
+Inductive seq_step := SBuild (nm : string) | SRun (argv : list string).
+Inductive seq_obs := OBuild (r : outcome unit * pstate) | ORun (r : outcome run_obs) | ONoCmd.
+
+Definition with_config (cl : cli) (cfg : list (string * list (name * value))) : cli :=
+  {| c_base := c_base cl; c_backend := c_backend cl; c_loader := c_loader cl; c_cmds := c_cmds cl; c_config := cfg |}.
+
+Definition init_pure (cfg : list (string * list (name * value))) (nm : string) := cfg.
+
+(* NOT the code: the variant `self.config_vals = self.config.get('GLOBAL', {})` followed by
+   `.update(self.config[self.name])` -- config_vals IS the GLOBAL section of the shared object, so the
+   section of the command is written into it (nothing happens without a GLOBAL section: .get then
+   returns a fresh dict).  Kept to state what goes wrong with it (C16_shared_global_refuted) *)
+Fixpoint set_section (cfg : list (string * list (name * value))) (s : string) (items : list (name * value))
+  : list (string * list (name * value)) :=
+  match cfg with
+  | [] => []
+  | (n, it) :: r => if seqb n s then (n, items) :: r else (n, it) :: set_section r s items
+  end.
+Definition init_shared (cfg : list (string * list (name * value))) (nm : string) :=
+  set_section cfg "GLOBAL" (config_vals cfg nm).
+
+(* the command object a step creates (its name), if any: run 250-261 `--help` creates Help, `--version`
+   nothing; 263-271 a crash of pass 1 leaves run before any command exists; 284-291 the selected command
+   (a name that is no sub-command: KeyError in get_plugin, before the constructor) *)
+Definition built_by (cl : cli) (s : seq_step) : option string :=
+  match s with
+  | SBuild nm => match find_cmd (c_cmds cl) nm with Some _ => Some nm | None => None end
+  | SRun all_args =>
+      let special := match all_args with
+                     | a :: _ => if seqb a "--version" then Some None
+                                 else if seqb a "--help" then Some (Some "help"%string) else None
+                     | [] => None
+                     end in
+      match special with
+      | Some r => r
+      | None =>
+          match pre_parse (mk_parser (c_loader cl)) all_args with
+          | Ok (_, cmd_args) =>
+              let (nm, _) := select_cmd (c_cmds cl) (snd (process_args cmd_args)) in
+              match find_cmd (c_cmds cl) nm with Some _ => Some nm | None => None end
+          | _ => None
+          end
+      end
+  end.
+
+Definition step_run (cl : cli) (env : name -> option string) (dodo : list (name * value)) (s : seq_step) : seq_obs :=
+  match s with
+  | SBuild nm => match find_cmd (c_cmds cl) nm with Some c => OBuild (cmd_parser cl c) | None => ONoCmd end
+  | SRun argv => ORun (main_run cl env dodo argv)
+  end.
+
+Fixpoint main_seq (eff : list (string * list (name * value)) -> string -> list (string * list (name * value)))
+         (cl : cli) (env : name -> option string) (dodo : list (name * value)) (steps : list seq_step) : list seq_obs :=
+  match steps with
+  | [] => []
+  | s :: r => step_run cl env dodo s ::
+              main_seq eff (match built_by cl s with
+                            | Some nm => with_config cl (eff (c_config cl) nm)
+                            | None => cl
+                            end) env dodo r
+  end.
+
 End TwoPass.
 
 (* ------------------------------------------------------------------ observation encoding
@@ -730,6 +800,21 @@ Definition mkcli (b : list cmd_option) (bk : name) (bc : list string) (l : list 
   {| c_base := b; c_backend := (bk, bc); c_loader := l; c_cmds := cs; c_config := cfg |}.
 Definition main_scenario (cl : cli) (env : list (name * string)) (dodo : list (name * value)) (argv : list string) : list Z :=
   run_obs_z (main_run conv_ref cl (env_of env) dodo argv).
+(* a sequence of steps on one DoitMain (part seq of harness/c16.py): per step -1 (separator), then for a
+   run the encoding of main_scenario, for a build 0 + the defaults of the options of the parser | 3 | 98,
+   97 for the name of no command *)
+Definition seq_obs_z (o : seq_obs) : list Z :=
+  (-1) :: match o with
+          | ORun r => run_obs_z r
+          | OBuild (Ok _, st) => 0 :: pstate_z st
+          | OBuild (ParseError, _) => [3]
+          | OBuild (Crash, _) => [98]
+          | ONoCmd => [97]
+          end.
+Definition seq_z (eff : list (string * list (name * value)) -> string -> list (string * list (name * value)))
+           (cl : cli) (env : list (name * string)) (dodo : list (name * value)) (steps : list seq_step) : list Z :=
+  flat_map seq_obs_z (main_seq conv_ref eff cl (env_of env) dodo steps).
+Definition seq_scenario := seq_z init_pure.
 (* vars found by process_args: n, then name/value strings *)
 Definition process_args_z (args : list string) : list Z :=
   let (vs, rest) := process_args args in
